@@ -382,6 +382,12 @@ pub fn check_queries<P: TP, V: Val>(side: &mut Side<P, V>, env: &mut Env, querie
             cmp_entry(env, "get_spm_prefix", "C09", *q, got, want.first().copied())?;
             env.cur_op = "get_lpm";
             cmp_entry(env, "get_lpm(last of cover)", "C09", *q, opt_kv(side.map.get_lpm(&p)), want.last().copied())?;
+            env.cur_op = "get_lpm_prefix";
+            let got = side.map.get_lpm_prefix(&p).map(|p| (raw_of(p), want.last().map_or(0, |w| w.2)));
+            cmp_entry(env, "get_lpm_prefix(last of cover)", "C09", *q, got, want.last().copied())?;
+            env.cur_op = "get_lpm_mut";
+            let got = side.map.get_lpm_mut(&p).map(|(p, v)| (raw_of(p), v.id()));
+            cmp_entry(env, "get_lpm_mut(last of cover)", "C09", *q, got, want.last().copied())?;
             if want.len() >= 2 {
                 env.ev("cover_ge2");
             }
